@@ -98,3 +98,77 @@ def operator_siblings(ck, rule, only=None):
             ck.check(INPLACE_ALIASES[a] == t, rule, "objects.Fxp", "in-place operator %s is the forward operator" % a, "%s = %s" % (a, t))
     if "__rpow__" in al:
         ck.note("__rpow__ = __pow__ aliases a non-commutative operator (outside C08's operators + - *)")
+
+
+def const_conversion(ck, rule):
+    """C08.R5: 'same' -> Fxp(x, like=self); 'best' (and unset) -> Fxp(x); anything else raises; keys == Config's allowed list."""
+    prog = ck.prog
+    from .pipeline import config_list
+    cc = A.const_conv(prog)
+    xp = [p for p in cc.params if p != "self"][0]
+    allowed = config_list(prog, "_op_input_size_list")
+    pfs = fpaths(prog, cc)
+    ck.saw(cc, paths=len(pfs))
+    handled = {}
+    for pf in pfs:
+        if pf.end == "raise":
+            continue
+        key = None
+        for g in pf.guards:
+            t = g[2]
+            if g[1] and isinstance(t, ast.Compare) and len(t.ops) == 1 and isinstance(t.ops[0], ast.Eq) and dotted(t.left) == "op_input_size" and const_str(t.comparators[0]) is not None:
+                key = const_str(t.comparators[0])
+            if g[1] and isinstance(t, ast.Compare) and isinstance(t.ops[0], ast.Is) and dotted(t.left) == "op_input_size":
+                key = key or "<unset>"
+        isfxp = [g for g in pf.guards if g[2] is not None and isinstance(g[2], ast.UnaryOp) and isinstance(g[2].operand, ast.Call) and dotted(g[2].operand.func) == "isinstance"]
+        if isfxp and not isfxp[-1][1]:
+            ck.check(pf.ret is not None and dotted(pf.ret) == xp, rule, cc, "an Fxp operand is passed through unchanged", "returns %s" % (src(pf.ret) if pf.ret is not None else None), pf.ret_stmt, nontrivial=False)
+            continue
+        if key is None or pf.ret is None:
+            continue
+        r = peel(pf.ret)[0]
+        isctor = isinstance(r, ast.Call) and prog.is_fxp_ctor(cc, r)
+        if not isctor:
+            ck.bad(rule, cc, "constants are converted by constructing an Fxp", "%r -> %s" % (key, src(pf.ret)[:60]), pf.ret_stmt)
+            continue
+        pos_ok = len(r.args) == 1 and dotted(r.args[0]) == xp
+        kws = {k.arg: k.value for k in r.keywords}
+        if key == "same":
+            good = pos_ok and set(kws) == {"like"} and dotted(kws["like"]) == "self"
+            ck.check(good, rule, cc, "op_input_size='same': the constant is converted into the operand's own format, Fxp(x, like=self)", "'same' -> %s" % src(r)[:70], pf.ret_stmt,
+                     "the constant is quantized into another format than the documented one")
+        else:
+            good = pos_ok and not kws
+            ck.check(good, rule, cc, "op_input_size=%s: the constant gets its best (inferred) format, Fxp(x)" % key, "%s -> %s" % (key, src(r)[:70]), pf.ret_stmt,
+                     "extra arguments constrain the inferred format (e.g. forcing the operand's signedness saturates negative constants)")
+        handled[key] = True
+    for k_ in allowed:
+        ck.check(k_ in handled, rule, cc, "configured op_input_size %r has a branch in the converter" % k_, "%r not handled" % k_)
+    ck.check(any(pf.end == "raise" for pf in pfs), rule, cc, "an unknown op_input_size raises", "no raising branch")
+
+
+def unary_ops(ck, rule):
+    """C08.R6: -x, +x, abs(x) build Fxp(op(self.val), signed=self.signed, n_word=self.n_word, n_frac=self.n_frac, raw=True)."""
+    prog = ck.prog
+    table = {"__neg__": "USub", "__pos__": "UAdd", "__abs__": "abs"}
+    for name, opk in table.items():
+        m = prog.func("objects.Fxp." + name)
+        for pf in fpaths(prog, m):
+            if pf.end != "return" or pf.ret is None:
+                ck.bad(rule, m, "%s returns a new object" % name, "path without return value", m.node)
+                continue
+            r = peel(pf.ret)[0]
+            if not (isinstance(r, ast.Call) and prog.is_fxp_ctor(m, r) and r.args):
+                ck.bad(rule, m, "%s rebuilds its result through the constructor" % name, "returns %s" % src(pf.ret)[:70], pf.ret_stmt)
+                continue
+            a = r.args[0]
+            if opk == "abs":
+                okop = isinstance(a, ast.Call) and dotted(a.func) in ("abs", "np.abs") and len(a.args) == 1 and dotted(a.args[0]) == "self.val"
+            else:
+                okop = isinstance(a, ast.UnaryOp) and type(a.op).__name__ == opk and dotted(a.operand) == "self.val"
+            kws = {k.arg: k.value for k in r.keywords}
+            okfmt = dotted(kws.get("signed")) == "self.signed" and dotted(kws.get("n_word")) == "self.n_word" and dotted(kws.get("n_frac")) == "self.n_frac" \
+                and isinstance(kws.get("raw"), ast.Constant) and kws["raw"].value is True and "n_int" not in kws
+            ck.check(okop, rule, m, "%s applies its operator to the operand's codes" % name, "argument %s" % src(a)[:50], pf.ret_stmt)
+            ck.check(okfmt, rule, m, "%s keeps the operand's format and stores the codes raw" % name,
+                     "keywords %s" % {k: src(v) for k, v in kws.items()}, pf.ret_stmt, "the result would be re-scaled or re-sized")
